@@ -217,8 +217,9 @@ func genC09(g *G) {
 		}
 	}
 	// an unlimited cache (MaxSize 0) holding more than 2^32 bytes
-	g.Emit("cachebig", "1", "5", "30")
-	g.Emit("cachebig", "0", "5", "30")
+	// (70 entries sharing one 64 MiB slice: the sum is 4.4 GiB while the process needs 64 MiB)
+	g.Emit("cachebig", "1", "70", "26")
+	g.Emit("cachebig", "0", "70", "26")
 	// random histories with re-entrant scripted callbacks
 	for i := 0; i < g.N(30000, 600000); i++ {
 		ms := maxSizes[g.Rnd.IntN(len(maxSizes))]
